@@ -233,7 +233,7 @@ let c19_run c =
     let out r w body nerr loc = L [A "h"; sint (log_status w); sct r.ctype; body; sint nerr; sstr loc] in
     (match helper with
      | "text" -> let (r, w) = plain ct_text sbytes in out r w (sstr (log_body w)) 0 []
-     | "html" -> let (r, w) = plain ct_html sbytes in out r w (sstr (log_body w)) 0 []
+     | "html" | "htmlstring" -> let (r, w) = plain ct_html sbytes in out r w (sstr (log_body w)) 0 []
      | "jsonbytes" -> let (r, w) = plain ct_json sbytes in out r w (sstr (log_body w)) 0 []
      | "blob" -> let (r, w) = plain (str_of_ascii "application/x-blob") sbytes in out r w (sstr (log_body w)) 0 []
      | "stream" -> let (r, w) = plain (str_of_ascii "application/x-stream") sbytes in out r w (sstr (log_body w)) 0 []
